@@ -151,6 +151,7 @@ def do_T(ops):
     from traits.api import TraitError
     from traits.ctrait import CTrait
     t = None
+    probe = False
     for op in ops:
         w = op.split()
         try:
@@ -165,6 +166,12 @@ def do_T(ops):
                 t._set_property(lambda *a: 0, g, lambda *a: None, s, (lambda *a: a[-1]) if hv else None, v)
             elif w[0] == "post":
                 t.post_setattr = (lambda o, n, v: None) if w[1] == "1" else None
+            elif w[0] == "default":
+                k = int(w[1])
+                t.set_default_value(k, [1] if k in (3, 5) else {} if k in (4, 6) else set() if k == 9 else
+                                    (len, ((),), None) if k == 7 else (lambda o: 3) if k == 8 else 5)
+            elif w[0] == "probe":
+                probe = True
             else:
                 return "bad-case"
         except TraitError:
@@ -175,6 +182,22 @@ def do_T(ops):
             return "err TraitError" if w[0] == "new" else "err ValueError"
     if t is None:
         return "none"
+    pr = ""
+    if probe:
+        # obj.z / obj.z = 1 / del obj.z, each on a fresh object (twin of probeGet / probeSet / probeDel)
+        from traits.api import HasTraits
+
+        def one(f):
+            class Host(HasTraits):
+                pass
+            h = Host()
+            h.add_trait("z", t)
+            try:
+                f(h)
+                return "ok"
+            except Exception as e:
+                return exc_name(e)
+        pr = " probe=%s,%s,%s" % (one(lambda h: h.z), one(lambda h: setattr(h, "z", 1)), one(lambda h: delattr(h, "z")))
     t.__dict__ = {}   # a CTrait without __dict__ does not survive __setstate__ (finding F17); not this protocol's subject
     st = t.__getstate__()
     idx = (st[0], st[1], st[2], st[4], st[11])
@@ -182,7 +205,7 @@ def do_T(ops):
     t2.__setstate__(st)
     st2 = t2.__getstate__()
     same = (st2[0], st2[1], st2[2], st2[4], st2[11]) == idx
-    return "idx %d %d %d %d %d %s" % (idx + ("same" if same else "differs",))
+    return "idx %d %d %d %d %d %s" % (idx + ("same" if same else "differs",)) + pr
 
 
 # ---- CT: trait definitions of traits.api x option grid
